@@ -237,8 +237,10 @@ def run(ctx):
     # a mutated frame may land on one of them; its decoding is then not judged by the model (containment and completion still are)
     import bellows.ezsp as _ez
     unmodelled = {}
+    known_ids = {}
     for v_ in range(4, 15):
         cmds_ = _ez.EZSP._BY_VERSION[v_].COMMANDS
+        known_ids[v_] = {cid for _, (cid, _tx, _rx) in cmds_.items()}
         unmodelled[v_] = {cid for _, (cid, _tx, rx) in cmds_.items() if any(ezsplib.has(d, ("inv", "cond")) for _, _, d in ezsplib.schema_fields(rx))}
     seen = set()
     for i, (v, pend, data, got, name) in enumerate(rows):
@@ -256,6 +258,9 @@ def run(ctx):
         hdr = spec_parse_header(v, data)
         if got.startswith("complete") and (hdr is None or hdr != pend):
             bad = f"pending command (seq {pend[0]}, id {pend[1]}) was completed by a frame with header {hdr}"
+        # (judged without the model: the version's own table says which frame IDs exist)
+        if got.startswith("callback") and (hdr is None or hdr[1] not in known_ids.get(v, ())):
+            bad = bad or (f"a callback was invoked for a frame whose frame ID {hdr[1] if hdr else None} the table of v{v} does not define: {got[:120]}")
         m = model[i] if model is not None else None
         if m is not None and hdr is not None and hdr[1] in unmodelled.get(v, ()):
             ctx.count("frame-id-outside-the-codec-model")
